@@ -44,7 +44,7 @@ for m in metas:
     out.append(f"| {name} | {j['property']} | {j['needs_to_manifest']} | {j['note']} | {j['detected']} |")
 n=len(metas)
 out.append("")
-out.append(f"{n} seeded changes in four rounds over all 19 claimed properties (from round 2 on each agent was told what the earlier seeds for its property were about and asked for another code site and trigger; round 4 asked for feature interactions); {first} were detected by the quick tier as it stood, the other {n-first} only after the check was strengthened — none is left undetected. Every change compiles, passes the unedited 281-test suite and fails its own demonstration; each was confirmed in a scratch worktree with `tools/verify_seed.sh` and run against the checks with `tools/try_seed.sh` (apply to /repo, run, `git checkout -- .`). The 'after-strengthening' entries show what the populations did not reach; each led to a new population or a sharper precondition that is now part of the quick tier.\n\n")
+out.append(f"{n} seeded changes in five rounds (four over all 19 claimed properties, a fifth over the twelve whose checks had missed most; from round 2 on each agent was told what the earlier seeds for its property were about and asked for another code site and trigger; rounds 4 and 5 asked for feature interactions, boundary values and state left behind by earlier interactions); {first} were detected by the quick tier as it stood, the other {n-first} only after the check was strengthened — none is left undetected. Every change compiles, passes the unedited 281-test suite and fails its own demonstration; each was confirmed in a scratch worktree with `tools/verify_seed.sh` and run against the checks with `tools/try_seed.sh` (apply to /repo, run, `git checkout -- .`). The 'after-strengthening' entries show what the populations did not reach; each led to a new population or a sharper precondition that is now part of the quick tier.\n\n")
 section("### D10.6 Seeded defects","### D10.6b Defects of the unchanged tree","\n".join(out))
 open(p,'w').write(s)
 print("fixed",len(d['fixed']),"findings",len(seen),"seeded",n,"first-try",first)
